@@ -92,7 +92,11 @@ impl From<&Model> for EnergyProps {
         let mut get_avg = |id: Uuid| -> f32 {
             *avg_value_cache.entry(id).or_insert_with(|| {
                 let day_sch = model.schedules.get_year_as_day_sch(id);
-                day_sch.iter().map(|ds| sch_day[ds].average).sum::<f32>() / day_sch.len() as f32
+                day_sch
+                    .iter()
+                    .map(|ds| sch_day.get(ds).map_or(0.0, |d| d.average))
+                    .sum::<f32>()
+                    / day_sch.len() as f32
             })
         };
 
@@ -384,14 +388,14 @@ impl From<&Model> for EnergyProps {
             .map(|day_idx| {
                 schedules_as_days
                     .iter()
-                    .map(|s| s[day_idx])
+                    .filter_map(|s| s.get(day_idx).copied())
                     .collect::<Vec<_>>()
             })
             .map(|mut dv| {
                 dv.sort_unstable();
                 dv.dedup();
                 dv.iter()
-                    .map(|id| sch_day.get(id).unwrap())
+                    .filter_map(|id| sch_day.get(id))
                     .collect::<Vec<_>>()
             });
         // 5. Acumula las horas ocupadas en cada día para todos los horarios diarios
